@@ -135,7 +135,12 @@ def pred_scc(x, p):
     return _circuit(x)
 
 
+def pred_ground_neq(x, p):
+    return x[0] != x[1]
+
+
 PREDICATES = {
+    "ground_neq": pred_ground_neq,
     "and": pred_and,
     "affine_eq": pred_affine_eq,
     "affine_geq": pred_affine_geq,
